@@ -17,7 +17,14 @@ def to_smt2(ob, axioms):
         s.add(h)
     for h in ob.hyps:
         s.add(h)
-    s.add(z3.Not(ob.goal))
+    try:
+        from .inst import strengthen
+        extra, goal = strengthen(list(ob.hyps), ob.goal)
+    except Exception:
+        extra, goal = [], ob.goal
+    for h in extra:
+        s.add(h)
+    s.add(z3.Not(goal))
     return s.to_smt2()
 
 
